@@ -27,6 +27,7 @@ def _write(p, s):
 STD_EXTRA = [
     "#[kani::stub(std::sync::Arc::drop_slow, crate::verif_support::arc_drop_slow_noop)]",
     "#[kani::stub(std::sync::Once::call_once, crate::verif_support::once_stub)]",
+    "#[kani::stub(core::result::unwrap_failed, crate::verif_support::unwrap_failed_stub)]",
 ]
 
 
